@@ -35,6 +35,8 @@ vsz  nondet_vsz(void);
 #define ASSUME(c)      __CPROVER_assume(c)
 #define CLAIM(c, msg)  __CPROVER_assert((c), msg)
 #define REACH(msg)     __CPROVER_assert(0, "REACH:" msg)
+/* a claim over ghost state: a proof obligation here, not evaluable in the native replay */
+#define GCLAIM(c, msg) __CPROVER_assert((c), msg)
 /* scalar input, named so that the driver can pull it out of a counterexample */
 #define IN(T, name)    T name = nondet_##T()
 /* byte-array input of constant length */
@@ -78,6 +80,13 @@ static void verif_replay_bytes(const char* name, vu8* dst, size_t n)
 #define malloc(n) calloc(((n) ? (n) : 1), 1)
 #define __CPROVER_assume(c) ASSUME(c)
 #define __CPROVER_assert(c, m) CLAIM(c, m)
+#define GCLAIM(c, msg) do { } while (0)
+/* contract clauses on (re)declarations vanish natively: the real callees are linked instead of their contracts */
+#define __CPROVER_requires(...)
+#define __CPROVER_ensures(...)
+#define __CPROVER_assigns(...)
+#include "zstd_verif_ghost.h"
+struct zstd_verif_ghost_s zstd_verif_ghost;
 
 #endif
 #endif /* VERIF_H */
